@@ -34,7 +34,7 @@ type Cmd struct {
 	StdinTTY bool     // stdin is the pty itself
 	TTYInput []string // lines typed at the terminal (passphrases), requires a pty
 	Env      []string
-	Fsize    int64 // >= 0: run under `prlimit --fsize=N` (RLIMIT_FSIZE): the write crossing byte N is short, the next fails with EFBIG
+	Fsize    int64  // >= 0: run under `prlimit --fsize=N` (RLIMIT_FSIZE): the write crossing byte N is short, the next fails with EFBIG
 	StdoutTo string // "": capture; otherwise a path opened for writing (e.g. /dev/full)
 	Timeout  time.Duration
 }
